@@ -919,7 +919,7 @@ pub fn run(ctx: &mut Ctx) {
         "C20" => {
             w1_small(ctx, "forms", ops, tier.pick(1, 3, 4), false);
             w2_lattice(ctx, "forms", ops, tier.pick(Tier::Tiny, Tier::Tiny, Tier::Quick), true);
-            w3_random(ctx, "forms", ops, tier.pick(200, 100_000, 2_000_000));
+            w3_random(ctx, "forms", ops, tier.pick(200, 500_000, 4_000_000));
             w_uint(ctx, "forms", ops, tier);
             w_long(ctx, "forms", ops, tier.pick(Tier::Tiny, Tier::Tiny, Tier::Quick));
             w4_div_hostile(ctx, "forms", &[Op::Div, Op::Rem]);
